@@ -1503,3 +1503,61 @@ func checkResetBufferNotRetained(c *core.Ctx, r *core.Rule, prog *core.Prog, pkg
 	}
 	r.Note("[:0] resets inside loops examined: %d", n)
 }
+
+
+// checkCursorLoopsAcceptTrailingEmpty: the uri encoders write an empty last
+// item / field value as nothing after the delimiter ("a," for ["a", ""]). A
+// decoder loop that calls cursor.readValue again after a delimiter was consumed
+// therefore meets an empty remainder legitimately; readValue reports that as
+// io.EOF. Every such loop has to look at the error (compare it with io.EOF)
+// instead of returning it as it comes, or the decoder fails on its own side's
+// output.
+func checkCursorLoopsAcceptTrailingEmpty(c *core.Ctx, r *core.Rule, prog *core.Prog) {
+	pkg := prog.ByPath[pkgURI]
+	if pkg == nil {
+		r.Undecided("load:uri", "-", "package uri not loaded")
+		return
+	}
+	n := 0
+	for _, top := range core.PkgFuncs(prog.SSA, pkg) {
+		for _, fn := range core.AllFuncs(top) {
+			for _, call := range core.Calls(fn) {
+				if !strings.HasSuffix(core.CalleeName(call.Common()), "uri.cursor).readValue") || !inLoop(call.Block()) {
+					continue
+				}
+				cv, ok := call.(*ssa.Call)
+				if !ok {
+					continue
+				}
+				n++
+				looksAtEOF := false
+				for _, ref := range *cv.Referrers() {
+					ex, ok := ref.(*ssa.Extract)
+					if !ok || !core.IsErrorType(ex.Type()) {
+						continue
+					}
+					for _, u := range *ex.Referrers() {
+						if bo, ok := u.(*ssa.BinOp); ok && (bo.Op == token.EQL || bo.Op == token.NEQ) {
+							for _, side := range []ssa.Value{bo.X, bo.Y} {
+								if ld, ok := side.(*ssa.UnOp); ok && ld.Op == token.MUL {
+									if g, ok := ld.X.(*ssa.Global); ok && g.Name() == "EOF" {
+										looksAtEOF = true
+									}
+								}
+							}
+						}
+					}
+				}
+				key := "cursor-loop-eof:" + fnKeyFull(fn)
+				if looksAtEOF {
+					r.Pass(key + ": the loop distinguishes the end of the text from other errors")
+				} else {
+					r.Fail(key, c.Pos(call.Pos()), fmt.Sprintf("%s calls cursor.readValue in a loop and returns its error as it comes: an empty remainder after a consumed delimiter (the encoder's spelling of a trailing empty item or field value) makes the decoder fail with EOF on the encoder's own output", fn.Name()))
+				}
+			}
+		}
+	}
+	if n == 0 {
+		r.Undecided("cursor-loop:none", "-", "no loop over cursor.readValue found in package uri")
+	}
+}
